@@ -168,6 +168,65 @@ pub fn run(ctx: &mut Ctx, o: &AttackOpts) {
                 }
             }
         }
+        // the holder as adversary again: KB-JWTs validly signed with the confirmed key that break exactly ONE requirement
+        // (header typ absent / other / differently cased / not a string; each payload claim absent, of another type,
+        // or slightly different), verified against the expectations the honest KB-JWT satisfies
+        if fam == "kb" {
+            if let Some(kbt) = &m.kb {
+                let kp: Vec<&str> = kbt.splitn(3, '.').collect();
+                let hdr: Option<Value> = kp.first().and_then(|h| unb64(h)).and_then(|b| serde_json::from_slice(&b).ok());
+                let pl: Option<Value> = kp.get(1).and_then(|h| unb64(h)).and_then(|b| serde_json::from_slice(&b).ok());
+                if let (Some(hdr), Some(pl)) = (hdr, pl) {
+                    let mut variants: Vec<(Value, Value)> = vec![];
+                    for t in [None, Some(json!("jwt")), Some(json!("KB+JWT")), Some(json!("kb+jwt ")), Some(json!("kb+jw")), Some(json!("")), Some(json!("JWT")), Some(json!("application/kb+jwt"))] {
+                        let mut h = hdr.clone();
+                        match t {
+                            None => {
+                                h.as_object_mut().map(|o| o.remove("typ"));
+                            }
+                            Some(v) => {
+                                h.as_object_mut().map(|o| o.insert("typ".into(), v));
+                            }
+                        }
+                        variants.push((h, pl.clone()));
+                    }
+                    for claim in ["nonce", "aud", "sd_hash", "iat"] {
+                        let old = pl.get(claim).cloned();
+                        let mut alts: Vec<Option<Value>> = vec![None, Some(Value::Null), Some(json!(0)), Some(json!([])), Some(json!({})), Some(json!(true))];
+                        if let Some(Value::String(sv)) = &old {
+                            alts.push(Some(json!(format!("{} ", sv))));
+                            alts.push(Some(json!(sv.to_uppercase())));
+                            alts.push(Some(json!([sv, sv])));
+                            alts.push(Some(json!({ "v": sv })));
+                        }
+                        for alt in alts {
+                            if claim == "iat" && !matches!(alt, None | Some(Value::Null)) {
+                                continue; // iat is not among the asserted requirements
+                            }
+                            let mut p2 = pl.clone();
+                            match alt {
+                                None => {
+                                    p2.as_object_mut().map(|o| o.remove(claim));
+                                }
+                                Some(v) => {
+                                    p2.as_object_mut().map(|o| o.insert(claim.into(), v));
+                                }
+                            }
+                            variants.push((hdr.clone(), p2));
+                        }
+                    }
+                    for (h, p2) in variants {
+                        let msg_text = format!("{}.{}", b64(h.to_string().as_bytes()), b64(p2.to_string().as_bytes()));
+                        let sig = jsonwebtoken::crypto::sign(msg_text.as_bytes(), &crate::keys::enc(hk), hkalg.parse().unwrap()).unwrap();
+                        let jwt = format!("{}.{}", msg_text, sig);
+                        ctx.emit(crate::jt::obj(&[("ev", crate::jt::qs("AdvSign")), ("key", crate::jt::qs(hk)), ("alg", crate::jt::qs(hkalg)), ("id", crate::jt::qs(&jwt))]));
+                        let mut m2 = m.clone();
+                        m2.kb = Some(jwt);
+                        go(ctx, &m2, true);
+                    }
+                }
+            }
+        }
         // expectations that are prefixes / extensions of what the KB-JWT names
         if fam == "kb" {
             let (n, a) = (kb.nonce.clone().unwrap(), kb.aud.clone().unwrap());
